@@ -17,6 +17,8 @@ for d in sorted(os.listdir(os.path.join(V, 'seeded'))):
             cell.append('**missed** by `%s`' % x['check'])
         else:
             cell.append('`%s` → %s' % (x['check'].replace('./check ', ''), ', '.join('`%s`' % k for k in x['violation_keys'][:3])))
+    if m.get('excluded'):
+        cell = ['*not counted*: outside the documented hand-over protocol (see `meta.json`)']
     rows.append('| %s | %s | %s |' % (d, title.replace('|', '\\|'), '; '.join(cell) or 'not run'))
 text = '''## 8. Seeded breaking changes and which checks catch them
 
@@ -98,6 +100,19 @@ Checks that were strengthened because a seeded change (or the triage of one) sho
   NUL into the caller's `const` input and restores it) - all stream bytes handed to the library now live in a read-only mapping,
   so a store into the input faults under every check. Two more reporting flaws surfaced: a crash of a whole `hx conc` process
   made C19 stop as inconclusive before the crash was reported; `./check` now reports violations found before a run has to stop.
+* **Round 7** (19 more, asked to combine two individually common conditions; 6 not caught at first, 1 not counted): **C08-7**
+  (a whitespace-skipping helper run over the rest of the chunk for every blank-only line before a status line) - 264 generated
+  families: eleven line positions x twelve odd lines (blank, blanks, tabs, NULs, bare CRs) x two personalities; **C10-7** (header
+  names of an interim 100 response never freed) - steady-state shapes with interim responses that carry header fields, and with
+  every per-transaction object the parser can allocate; **C11-7** (IPv6 hosts compared on their first 32 bits) - IPv6 / IPv4
+  literal pairs and near-miss names in the host-mismatch trigger; **C13-7** (the Host field's port written into the URI's numeric
+  port after the headers) - the end-to-end runs of en_c13 send a Host field with its own port and look at the URI again after the
+  headers; **C14-7** (no file callbacks for multipart files of a PUT) - PUT and PATCH besides POST; **C19-7** (a configuration
+  installed with `htp_tx_set_config(.., HTP_CONFIG_SHARED)` destroyed with the first transaction that used it) - the harness can
+  install an application-owned copy of the configuration per transaction (`TX_CFG`; shared between the connections of a group in
+  `hx conc`), two C19 profiles and the hostile mutator use it. **C16-7** is not counted: its demonstration holds back request
+  bytes the parser asked to be resumed while it offers two response chunks in a row, which docs/QUICK_START 2.2.4 rules out
+  (`seeded/C16-7/meta.json`).
 * **C08-1/2, C19-1/2** were the acceptance tests of the two checks built last; C19-1 (a process-wide decompression buffer) is
   invisible to ThreadSanitizer because zlib does the writes, and is caught by the solo-vs-shared dump comparison under baton
   interleavings; C19-2 (self-organising best-fit map) is caught by the deep configuration hash and by TSan.
